@@ -72,6 +72,9 @@ func trafficAround(e chain.Event) (pre, post []chain.Event) {
 		post = append(post, chain.Event{Kind: "check", Tx: &t})
 	}
 	other := chain.TxSpec{Msg: "send", From: 4, To: 3, Amount: 9, Entropy: 77002}
+	// a parameter change by its owner that is only ever simulated and checked, never delivered
+	sim := chain.TxSpec{Msg: "change_param", From: 4, Key: "pos/MaxValidators", Val: `"1"`, Entropy: 77003}
+	post = append(post, chain.Event{Kind: "simulate", Tx: &sim}, chain.Event{Kind: "check", Tx: &sim})
 	post = append(post,
 		chain.Event{Kind: "simulate", Tx: &other},
 		chain.Event{Kind: "query", Path: "/store/pos/subspace", Data: []byte{0x21}},
